@@ -424,6 +424,16 @@ def r19_9(ctx, rep):
     codegen_always_builds(ctx, rep, "R19.9")
 
 
+@SPEC.rule(
+    "R19.10",
+    "the producer of the metadata matrices leaves no gaps either: variable_metadata_function gives every variable of every category "
+    "its rows and every attribute its column (no skip for `uninteresting` variables) — load_model's row offsets count every variable",
+)
+def r19_10(ctx, rep):
+    from .c13 import metadata_rows_total
+    metadata_rows_total(ctx, rep, "R19.10")
+
+
 # -- seeded variants ---------------------------------------------------------
 from ._mut import delete_stmt_where, replace_in_func  # noqa: E402
 
